@@ -49,6 +49,8 @@ pub enum EStep {
     /// one more handle on the open document (without a subscriber), and its release
     OpenAgain,
     CloseExtra,
+    /// the sync switch: remote inserts and reconciliation messages are refused while it is off
+    SetSync { on: bool },
 }
 
 #[derive(Serialize, Deserialize, Clone, Debug)]
@@ -138,10 +140,11 @@ impl Scenario for Events {
                     EStep::Message { es, status: rng.below(3) as u8, peer: rng.below(3) as u8, bad }
                 }
                 32 | 33 => EStep::SetPolicy { p: gen_policy(rng) },
-                38 if handles => match rng.below(4) {
+                38 if handles => match rng.below(6) {
                     0 | 1 => EStep::Import { write: rng.chance(2, 3) },
                     2 => EStep::OpenAgain,
-                    _ => EStep::CloseExtra,
+                    3 => EStep::CloseExtra,
+                    _ => EStep::SetSync { on: rng.chance(1, 2) },
                 },
                 36 | 37 if other => match rng.below(4) {
                     0 => EStep::OtherLocal { a: rng.below(2) as u8, k: key(rng), c: rng.range(1, 3) as u8 },
@@ -277,6 +280,7 @@ async fn run(plan: &EventsPlan, cx: &mut Cx, only_download: bool) -> Res {
 
     let mut model = RefDoc::default();
     let mut can_write = !plan.start_read_only;
+    let mut sync_on = true;
     let mut extra_handles = 0u32;
     let mut policy: Option<PolicySpec> = None;
     let mut applied: Vec<Applied> = Vec::new();
@@ -490,6 +494,8 @@ async fn run(plan: &EventsPlan, cx: &mut Cx, only_download: bool) -> Res {
                     signed = m.to_real().unwrap_or(signed);
                     cx.probe("rejected_invalid");
                     cx.fault("corrupt_signature");
+                } else if !sync_on {
+                    cx.probe("remote_insert_refused_sync_off");
                 } else if model.offer(&e).is_some() {
                     ok = true;
                     let download = policy.as_ref().map(|p| p.selects(&e.k)).unwrap_or(true);
@@ -517,6 +523,8 @@ async fn run(plan: &EventsPlan, cx: &mut Cx, only_download: bool) -> Res {
                         signed = m.to_real().unwrap_or(signed);
                         cx.probe("rejected_invalid");
                         cx.fault("corrupt_signature");
+                    } else if !sync_on {
+                        // the whole message is refused
                     } else if model.offer(&e).is_some() {
                         let download = policy.as_ref().map(|p| p.selects(&e.k)).unwrap_or(true);
                         applied.push(Applied { entry: signed.clone(), local: false, from, status: *status, download });
@@ -536,7 +544,7 @@ async fn run(plan: &EventsPlan, cx: &mut Cx, only_download: bool) -> Res {
                 let h2 = h.clone();
                 let mut fut: PendFut = Box::pin(async move { h2.sync_process_message(ns, msg, from, SyncOutcome::default()).await.map(|_| ()).map_err(|e| format!("{e:#}")) });
                 let _ = poll_once(&mut fut);
-                pending.push(("sync-process".into(), fut, Some(true)));
+                pending.push(("sync-process".into(), fut, Some(sync_on)));
                 cx.ev("message", format!("{} entries bad={bad:?}", es.len()));
             }
             EStep::SetPolicy { p } => {
@@ -628,6 +636,15 @@ async fn run(plan: &EventsPlan, cx: &mut Cx, only_download: bool) -> Res {
                     cx.probe("capability_upgraded_while_open_and_subscribed");
                 }
                 cx.ev("import", format!("write={write}"));
+            }
+            EStep::SetSync { on } => {
+                let h2 = h.clone();
+                let on2 = *on;
+                let mut fut: PendFut = Box::pin(async move { h2.set_sync(ns, on2).await.map_err(|e| format!("{e:#}")) });
+                let _ = poll_once(&mut fut);
+                pending.push(("set-sync".into(), fut, Some(true)));
+                sync_on = *on;
+                cx.ev("set-sync", format!("{on}"));
             }
             EStep::OpenAgain => {
                 let h2 = h.clone();
